@@ -489,6 +489,30 @@ def _model_scenario(rng):
     return "cfg bits=8 imax=1048576 pmax=1048576 timeout_ms=3000 quiet_ms=3000 model=1\n" + "\n".join(setup) + ("\n" if setup else "") + \
            "".join("thread %s %s\n" % t for t in th) + "schedule " + " ".join(sched) + "\n"
 
+def _model_scenario_gc(rng):
+    """C06: callers and explicit flushes next to ONE index GC cycle (one file per step) over several small index files with stale record lists;
+    keys in three buckets; every thread runs to completion inside the schedule: replayable on Conc2."""
+    vals = ["61", "6262", "636363", "-", "6464646464646464"]
+    setup = []
+    for rnd in range(rng.randint(2, 3)):
+        for k in MKEYS:
+            if rng.random() < 0.8:
+                setup += ["setup put %s %s" % (k, "%02x" % (0x61 + rnd) * rng.randint(1, 6)), "setup flush"]
+    for k in rng.sample(MKEYS, rng.randint(0, 3)):
+        setup.append("setup put %s %s" % (k, "7a" * rng.randint(1, 5)))         # dirty buckets waiting for the next flush
+    writers, th = set(), [("G1", "igc %d" % rng.randint(0, 1))]
+    for i in range(rng.randint(2, 3)):
+        kind = rng.choice(("put", "get", "get", "remove", "has", "size", "flush", "flush"))
+        k = rng.choice(MKEYS)
+        if kind in ("put", "remove"):
+            cand = [x for x in MKEYS if x not in writers]
+            k = rng.choice(cand); writers.add(k)
+        th.append(("T%d" % i, "put %s %s" % (k, rng.choice(vals)) if kind == "put" else ("flush" if kind == "flush" else "%s %s" % (kind, k))))
+    names = [t[0] for t in th]
+    sched = [rng.choice(names) for _ in range(rng.randint(6, 30))] + [n for n in names if n != "G1"] * 8 + ["G1"] * 40
+    return "cfg bits=8 imax=%d pmax=1048576 timeout_ms=3000 quiet_ms=3000 model=1\n" % rng.choice((40, 52, 64)) + "\n".join(setup) + "\n" + \
+           "".join("thread %s %s\n" % t for t in th) + "schedule " + " ".join(sched) + "\n"
+
 def _model_case(txt, r):
     """Translate a finished run of a model=1 scenario into a Coq conc_case (or None if the run cannot be replayed)."""
     setup, calls, names = [], [], []
@@ -500,7 +524,7 @@ def _model_case(txt, r):
             if f[1] == "put":
                 setup.append("OPut %s %s" % (_coq_bytes(f[2]), _coq_bytes(f[3])))
             elif f[1] == "flush":
-                setup.append("OFlush [7]")
+                setup.append("OFlush [5;6;7]")
             else:
                 return None
         if f[0] == "thread":
@@ -517,6 +541,8 @@ def _model_case(txt, r):
                 calls.append("QSize %s" % _coq_bytes(f[3]))
             elif f[2] == "flush":
                 calls.append("QFlush")
+            elif f[2] == "igc":
+                calls.append("QIgcCycle %s" % ("true" if f[3] != "0" else "false"))
             else:
                 return None
     if r["stuck"] or r.get("quiet_timeouts", 1) or r.get("unfinished_at_free_run", 1):
@@ -532,8 +558,13 @@ def _model_case(txt, r):
             sched.append(t)                 # the record is in the primary pool
         elif pt == "index.Flush.afterSwap":
             sched.append(t)                 # the pools have been swapped: the model's Flush step
+        elif pt == "index.gc.beforeReap":
+            sched.append(t)                 # the cycle stands before a file: the model's previous step (the scan, or the file before) is complete
         elif pt == "done":
             sched += [t, t]                 # what is left: primary read / index mutation (extra steps are no-ops)
+    for i, c in enumerate(calls):
+        if c.startswith("QIgcCycle"):
+            sched += [i] * 4                # (a cycle over files the model has and the code had not - the layouts may differ - finishes here)
     exp = []
     for t in r["threads"]:
         if t["op"] == "put":
@@ -544,7 +575,7 @@ def _model_case(txt, r):
             exp.append("RErr" if t["res"] != "ROk" else "RBool %s" % ("true" if t["found"] else "false"))
         elif t["op"] == "size":
             exp.append("RErr" if t["res"] != "ROk" else "RSize %s %s" % ("true" if t["found"] else "false", t["out"] or "0"))
-        elif t["op"] == "flush":
+        elif t["op"] in ("flush", "igc"):
             exp.append("ROk" if t["res"] == "ROk" else "RErr")
     return "  ([%s],\n   [%s],\n   [%s]%%nat,\n   [%s])" % ("; ".join(setup), "; ".join(calls), "; ".join(map(str, sched)), "; ".join(exp))
 
@@ -555,7 +586,10 @@ def _conc_scenarios(rng, n, gc):
         if not gc and fam < 0.35:
             scen.append(_model_scenario(rng))
             continue
-        if gc and fam < 0.3:
+        if gc and fam < 0.2:
+            scen.append(_model_scenario_gc(rng))
+            continue
+        if gc and fam < 0.4:
             # relocation-targeted: a low-use primary file whose last busy record is K; a caller works on K while a cycle relocates it
             K = "1206070707090909"
             others = ["12060707070%d0%d0%d" % (i, i, i) for i in range(1, 7)]
@@ -572,7 +606,7 @@ def _conc_scenarios(rng, n, gc):
             scen.append("cfg bits=8 imax=1048576 pmax=%d timeout_ms=3000\n" % pmax + "\n".join(setup) + "\n" +
                         "".join("thread %s %s\n" % t for t in th) + "schedule " + " ".join(sched) + "\n" + ("free flush\n" if rng.random() < 0.3 else ""))
             continue
-        if gc and fam < 0.5:
+        if gc and fam < 0.6:
             # flush-versus-index-GC: several index files (tiny limit), dirty buckets waiting to be flushed, a Flush and an index cycle
             setup = []
             for rnd in range(rng.randint(2, 3)):
@@ -592,7 +626,7 @@ def _conc_scenarios(rng, n, gc):
             scen.append("cfg bits=8 imax=%d pmax=1048576 timeout_ms=3000\n" % rng.choice((40, 52, 64)) + "\n".join(setup) + "\n" +
                         "".join("thread %s %s\n" % t for t in th) + "schedule " + " ".join(sched) + "\n")
             continue
-        pool = MKEYS if (gc and fam < 0.75) else CKEYS
+        pool = MKEYS if (gc and fam < 0.8) else CKEYS
         keys = rng.sample(pool, rng.randint(2, 4))
         vals = ["61", "6262", "636363", "-", "6464646464646464"]
         setup = []
